@@ -1,299 +1,262 @@
-"""C01 -- expression-defined locations equal their definition: the update protocol."""
+"""C01 -- expression-defined locations equal their definition: the update protocol.
+
+All rules work on *normalised* functions (xsa.normalize: helpers inlined, conditional expressions lowered)
+and on *symbolic terms* (xsa.sym): a rule asks which values flow into which calls on which paths, not how the
+function is spelled.  A rule fails only on positive evidence (a path that skips a step, a value that comes from
+somewhere else); when the anchor structure itself cannot be found the run ends ANALYSIS-ERROR (cannot decide).
+"""
 from __future__ import annotations
 
 import ast
 
 from .. import astutil as A
+from .. import sym as S
 from ..core import AnalysisError, Collector
-from .common import FnCtx, fnctx, has_guard, is_self_call, is_method_call, test_is_none
+from .common import SCtx, sctx, fnctx, is_self_call
 from .toposort_rules import check_toposort
 
 PROP = "C01"
-FLOORS = {"C01.R1": 9, "C01.R2": 5, "C01.R3": 10, "C01.R4": 2, "C01.R5": 8, "C01.R6": 1, "C01.R7": 4}
+FLOORS = {"C01.R1": 8, "C01.R2": 5, "C01.R3": 8, "C01.R4": 2, "C01.R5": 7, "C01.R6": 1, "C01.R7": 4}
 META = {
-    "explanation": "Static discharge of the update protocol behind C01: the control-flow graph of Manager.set_value "
-                   "(unregister -> register -> evaluate -> write -> propagate on every path), the trigger closure of "
-                   "find_taskids/find_tasks, the reverse-post-order DFS template of sorting.toposort, absence of recursion "
-                   "over the manager's graph, the bodies of the three task classes and the assignment entry points of MutableRef.",
+    "explanation": "Static discharge of the update protocol behind C01: on the control-flow graph of Manager.set_value "
+                   "(after inlining of helpers) every path unregisters an existing definition, registers the new ExprTask, "
+                   "evaluates, writes, and then runs find_tasks(ref._get_dependencies()); the trigger closure of "
+                   "find_taskids/find_tasks; the reverse-post-order DFS template of sorting.toposort; absence of recursion "
+                   "over the manager's graph; the bodies of the three task classes; the assignment entry points of MutableRef. "
+                   "Values are compared as symbolic terms (locals, temporaries and helpers dissolved).",
     "decides": "necessary structural conditions of the protocol (ordering, must-pass-through, dataflow of the written value "
                "and of the trigger set); not the numeric values",
     "not_decided": "value equality on all numeric inputs; sufficiency of the protocol (see known finding C01.R6)",
     "assumptions": ["user containers and user actions are opaque and do not touch manager state",
-                    "callee resolution: self.m() through the class, module functions by name"],
+                    "callee resolution: self.m() through the class hierarchy, module functions by name; helper methods are "
+                    "inlined up to depth 3 when their returns are in tail position",
+                    "symbolic terms ignore field mutation between a read and its use (flow-insensitive in self attributes)"],
 }
+
+ANCHORS = {"register", "unregister", "run_tasks", "find_tasks", "find_taskids", "set_value", "find_taskids_from_tasks",
+           "toposort", "cleanup", "clone", "copy", "refresh", "verify", "load", "dump", "copy_expr_from", "find_deps",
+           "iter_expr_tasks_owner", "mk_fun", "gen_fun", "ref", "refattr", "newenv", "freeze_tree", "unfreeze_tree"}
+
+
+def set_value_ctx(col: Collector) -> SCtx:
+    s = sctx(col.repo, "Manager", "set_value", public=True, keep=ANCHORS)
+    n = len([p for p in s.sym.params.values() if p[:1] == ("param",)])
+    if n != 2:
+        raise AnalysisError("Manager.set_value: expected (self, ref, value)")
+    return s
+
+
+def _write_events(s: SCtx, ref, value):
+    """calls that store into the assigned location: ref._set_value(v) or ExprTask(ref, value).run()"""
+    W = s.calls_some(S.mcall(ref, "_set_value", S.V("v")))
+    W += s.calls_some(S.mcall(S.fcall("ExprTask", ref, value), "run"))
+    return W
 
 
 def _set_value_protocol(col: Collector, rule="C01.R1", only=None):
-    repo = col.repo
-    cx = fnctx(repo, "Manager", "set_value")
-    cfg = cx.cfg
-    P = A.params(cx.fn)
-    if len(P) != 3:
-        raise AnalysisError("Manager.set_value: expected (self, ref, value)")
-    _, ref_p, val_p = P
+    s = set_value_ctx(col)
+    cfg = s.cfg
+    ref, value = s.P(0), s.P(1)
     q = "Manager.set_value"
+    here = s.loc(s.fn)
 
-    def nodes(pred):
-        return cx.call_nodes(pred)
-
-    W = nodes(lambda c: is_method_call(c, "_set_value") and A.dotted(c.func.value) == ref_p)
-    Pn = nodes(lambda c: is_self_call(c, "run_tasks"))
-    U = nodes(lambda c: is_self_call(c, "unregister"))
-    R = nodes(lambda c: is_self_call(c, "register"))
-    out = {}
+    W = _write_events(s, ref, value)
+    Pn = s.calls_some(S.mcall(S.SELF, "run_tasks", S.V("x")))
+    U = s.calls_some(S.mcall(S.SELF, "unregister", S.V("x")))
+    R = s.calls_some(S.mcall(S.SELF, "register", S.V("x")))
+    EV = s.calls_some(S.mcall(value, "_get_value")) + s.calls_some(S.mcall(S.fcall("ExprTask", ref, value), "run"))
     if not W:
-        col.fail(rule, f"{q}#write", cx.loc(cx.fn), "set_value writes the value through ref._set_value", "no such call")
-        return
+        raise AnalysisError(f"{q}: no call that writes the assigned location (ref._set_value) found -- cannot decide")
     if not Pn:
-        col.fail(rule, f"{q}#propagate", cx.loc(cx.fn), "set_value runs the dependants (self.run_tasks)", "no such call")
+        col.fail(rule, f"{q}#propagate", here, "set_value runs the dependants (self.run_tasks)", "no call of self.run_tasks")
         return
+    Wn, Pnn, Un, Rn, EVn = (s.nids(x) for x in (W, Pn, U, R, EV))
+
     # (a) every normal path writes
-    col.add(rule, f"{q}#write-on-every-path", cfg.must_pass(cfg.ENTRY, cfg.EXIT, W), cx.loc(W[0]),
-            "every normally returning path of set_value writes the value through ref._set_value (no early exit)",
-            f"write nodes {[cx.loc(w) for w in W]}")
-    # (b) propagate after write on every path
-    ok_b = all(cfg.must_pass(w, cfg.EXIT, Pn) for w in W) and all(any(cfg.dominates(w, p) for w in W) for p in Pn)
-    col.add(rule, f"{q}#propagate-after-write", ok_b, cx.loc(Pn[0]),
+    col.add(rule, f"{q}#write-on-every-path", cfg.must_pass(cfg.ENTRY, cfg.EXIT, Wn), s.loc(Wn[0]),
+            "every normally returning path of set_value writes the value into the assigned location (no early exit)",
+            f"write sites {[s.loc(w) for w in Wn]}")
+    # (b) propagation after the write, on every path; never before it
+    ok_b = all(cfg.must_pass(w, cfg.EXIT, Pnn) for w in Wn) and all(cfg.must_pass(cfg.ENTRY, p, Wn) for p in Pnn)
+    col.add(rule, f"{q}#propagate-after-write", ok_b, s.loc(Pnn[0]),
             "after the write every normally returning path runs the dependants; propagation never precedes the write",
-            f"run_tasks nodes {[cx.loc(p) for p in Pn]}")
-    # (c) trigger set = find_tasks(ref._get_dependencies())
-    for p in Pn:
-        c = cx.calls_at(p, lambda c: is_self_call(c, "run_tasks"))[0]
-        arg = cx.resolve(c.args[0], p) if c.args else None
-        ok = False
-        facts = A.src(c)
-        if isinstance(arg, ast.Call) and is_self_call(arg, "find_tasks") and len(arg.args) == 1 and not arg.keywords:
-            d = cx.resolve(arg.args[0], p)
-            ok = isinstance(d, ast.Call) and is_method_call(d, "_get_dependencies") and A.dotted(d.func.value) == ref_p and not d.args
-        col.add(rule, f"{q}#trigger-set", ok, cx.loc(p),
-                "the tasks run are find_tasks(ref._get_dependencies()): the assigned location and every enclosing container",
-                facts)
+            f"run_tasks sites {[s.loc(p) for p in Pnn]}")
+    # (c) trigger set
+    want = S.mcall(S.SELF, "find_tasks", S.mcall(ref, "_get_dependencies"))
+    for ev, m in Pn:
+        a = ev.term
+        arg = None
+        for alt in S.alts(a):
+            mm = S.match(alt, S.mcall(S.SELF, "run_tasks", S.V("x")))
+            arg = mm["x"] if mm else arg
+        ok = S.match(ev.term, S.mcall(S.SELF, "run_tasks", want)) is not None
+        # the schedule is computed in this very call, after the graph was updated
+        ft = [e.nid for e, _ in s.calls_some(S.mcall(S.SELF, "find_tasks", S.ANY))]
+        fresh = bool(ft) and cfg.must_pass(cfg.ENTRY, ev.nid, ft) and all(not cfg.path_avoiding(f, x, []) for f in ft for x in Un + Rn)
+        col.add(rule, f"{q}#trigger-set", ok and fresh, s.loc(ev),
+                "the tasks run are find_tasks(ref._get_dependencies()) -- the assigned location and every enclosing container -- "
+                "computed afresh on every assignment, after the graph has been updated (no memoised schedule)",
+                f"run_tasks argument: {S.show(arg)}")
     # (d) unregister iff ref in self.tasks
-    def in_tasks(t):
-        p = A.compare_parts(t)
-        return bool(p and isinstance(p[1], ast.In) and A.dotted(p[0]) == ref_p and A.dotted(p[2]) == "self.tasks")
-    tests = [n.id for n in cfg.nodes.values() if n.kind == "test" and in_tasks(n.ast)]
-    okU = bool(U) and bool(tests)
-    facts = ""
-    if okU:
-        for u in U:
-            c = cx.calls_at(u, lambda c: is_self_call(c, "unregister"))[0]
-            if not (len(c.args) == 1 and A.dotted(c.args[0]) == ref_p):
-                okU = False
-                facts = f"unregister called with {A.src(c)}"
-            gs = [g for g in cfg.guards(u) if not isinstance(g.ast, ast.For)]
-            if not (len(gs) == 1 and gs[0].kind == "T" and in_tasks(gs[0].ast)):
-                okU = False
-                facts = f"guards of unregister: {[g.kind + ':' + A.src(g.ast) for g in gs]}"
-        # from the true branch of the test, every path to a write or a register passes unregister
-        for t in tests:
-            tb = [n.id for n in cfg.nodes.values() if n.kind == "T" and n.of == t]
-            for w in W + R:
-                if cfg.path_avoiding(tb[0], w, U):
-                    okU = False
-                    facts = "a path from `ref in self.tasks` (true) reaches the write/register without unregister"
-            if not all(cfg.dominates(t, w) for w in W):
-                okU = False
-                facts = "the membership test does not dominate the write"
-    else:
-        facts = f"unregister calls: {len(U)}, `ref in self.tasks` tests: {len(tests)}"
-    col.add("C03.R2" if only == "C03" else rule, f"{q}#unregister-existing-definition", okU, cx.loc(U[0]) if U else cx.loc(cx.fn),
+    in_tasks = ("cmp", "in", ref, S.sattr("tasks"))
+    br_out = s.branches(("cmp", "not in", ref, S.sattr("tasks")))
+    okU, facts = True, ""
+    for ev, m in U:
+        if S.match(ev.term, S.mcall(S.SELF, "unregister", ref)) is None:
+            okU, facts = False, f"unregister called with {S.show(ev.term)}"
+        elif not s.under(ev.nid, in_tasks):
+            okU, facts = False, f"unregister runs under {[S.show(c) for c in s.conds(ev.nid)]}"
+    good_u = [ev.nid for ev, m in U if S.match(ev.term, S.mcall(S.SELF, "unregister", ref)) is not None]
+    for x in Wn + Rn:
+        if cfg.path_avoiding(cfg.ENTRY, x, good_u + br_out):
+            okU, facts = False, "a path reaches the write/register with the old definition neither unregistered nor known absent"
+    col.add("C03.R2" if only == "C03" else rule, f"{q}#unregister-existing-definition", okU, s.loc(Un[0]) if Un else here,
             "an existing task identified by the assigned ref is unregistered first, exactly when `ref in self.tasks`", facts)
-    # (e) index mutations precede the write
-    late = [x for x in U + R if any(cfg.path_avoiding(w, x, []) for w in W)]
-    col.add(rule, f"{q}#graph-changes-precede-write", not late, cx.loc(late[0]) if late else cx.loc(W[0]),
+    # (e) graph changes precede the write
+    late = [x for x in Un + Rn if any(cfg.path_avoiding(w, x, []) for w in Wn)]
+    early = [w for w in Wn if any(cfg.path_avoiding(w, x, []) for x in Un + Rn)]
+    col.add(rule, f"{q}#graph-changes-precede-write", not late, s.loc(early[0]) if early else s.loc(Wn[0]),
             "unregister/register (which may refuse) happen before the container is written",
-            f"reachable after the write: {[cx.loc(x) for x in late]}")
+            f"reachable after the write: {[s.loc(x) for x in late]}")
     # (f) expression branch
-    def is_ref_test(t):
-        if isinstance(t, ast.Call) and A.call_name(t) == "isinstance" and len(t.args) == 2:
-            return A.dotted(t.args[0]) == val_p and A.dotted(t.args[1]) in ("BaseRef", "refs.BaseRef")
-        if isinstance(t, ast.Call) and A.call_name(t) in ("is_ref", "refs.is_ref") and len(t.args) == 1:
-            return A.dotted(t.args[0]) == val_p
-        return False
-    rtests = [n.id for n in cfg.nodes.values() if n.kind == "test" and is_ref_test(n.ast)]
-    okR = bool(R) and len(rtests) >= 1
-    factsR = ""
-    EV = []
-    for n in cfg.nodes.values():
-        if n.kind == "stmt" and isinstance(n.ast, ast.Assign) and isinstance(n.ast.value, ast.Call) \
-                and is_method_call(n.ast.value, "_get_value") and A.dotted(n.ast.value.func.value) == val_p:
-            EV.append(n.id)
-    if okR:
-        for r in R:
-            c = cx.calls_at(r, lambda c: is_self_call(c, "register"))[0]
-            t = cx.resolve(c.args[0], r) if c.args else None
-            if not (isinstance(t, ast.Call) and A.call_name(t) == "ExprTask" and len(t.args) == 2
-                    and A.dotted(t.args[0]) == ref_p and A.dotted(t.args[1]) == val_p):
-                okR = False
-                factsR = f"registered task is {A.src(t)}"
-            else:
-                ds = cx.defs(val_p, r)
-                if not all(d.kind == "param" for d in ds):
-                    okR = False
-                    factsR = "the expression registered is not the value passed in"
-            if not has_guard(cfg, r, "T", is_ref_test):
-                okR = False
-                factsR = "register is not under the `value is a ref` test"
-        for t in rtests:
-            tb = [n.id for n in cfg.nodes.values() if n.kind == "T" and n.of == t][0]
-            for w in W:
-                if cfg.path_avoiding(tb, w, R):
-                    okR = False
-                    factsR = "a path from `value is a ref` (true) reaches the write without registering the ExprTask"
-                if cfg.path_avoiding(tb, w, EV):
-                    okR = False
-                    factsR = "a path from `value is a ref` (true) writes without evaluating the expression"
-            if not all(cfg.dominates(t, w) for w in W):
-                okR = False
-                factsR = "the `value is a ref` test does not dominate the write"
-    else:
-        factsR = f"register calls: {len(R)}, isinstance(value, BaseRef) tests: {len(rtests)}"
-    col.add(rule, f"{q}#expression-branch-registers-and-evaluates", okR, cx.loc(R[0]) if R else cx.loc(cx.fn),
+    isref = S.fcall("isinstance", value, S.V("_", lambda t: t in (("glob", "BaseRef"), ("attr", ("glob", "refs"), "BaseRef"))))
+    isref2 = S.fcall("is_ref", value)
+    rb = s.branches(isref) + s.branches(isref2)
+    nb = s.branches(("uop", "not", isref)) + s.branches(("uop", "not", isref2))
+    if not rb and not nb:
+        raise AnalysisError(f"{q}: no test `value is a reference` found -- cannot decide")
+    okR, factsR = bool(R), ""
+    if not R:
+        factsR = "no call of self.register"
+    for ev, m in R:
+        if S.match(ev.term, S.mcall(S.SELF, "register", S.fcall("ExprTask", ref, value))) is None:
+            okR, factsR = False, f"registered task is {S.show(ev.term)}"
+        elif not (s.under(ev.nid, isref) or s.under(ev.nid, isref2)):
+            okR, factsR = False, "register is not under the `value is a reference` test"
+    for b in rb:
+        for w in Wn:
+            if cfg.path_avoiding(b, w, Rn):
+                okR, factsR = False, "a path from `value is a reference` (true) reaches the write without registering the ExprTask"
+            if cfg.path_avoiding(b, w, EVn):
+                okR, factsR = False, "a path from `value is a reference` (true) writes without evaluating the expression"
+    col.add(rule, f"{q}#expression-branch-registers-and-evaluates", okR, s.loc(Rn[0]) if Rn else here,
             "when the value is an expression an ExprTask(ref, value) is registered and the value written is value._get_value()",
             factsR)
     # (g) what is written
-    for w in W:
-        c = cx.calls_at(w, lambda c: is_method_call(c, "_set_value") and A.dotted(c.func.value) == ref_p)[0]
-        a = c.args[0] if len(c.args) == 1 else None
-        ok = False
-        facts = A.src(c)
-        if isinstance(a, ast.Name):
-            ds = cx.defs(a.id, w)
-            ok = bool(ds) and all(
-                (d.kind == "param" and d.name == val_p) or (d.kind == "assign" and d.nid in EV) for d in ds)
-            facts = f"definitions reaching the written name `{a.id}`: {ds}"
-        col.add(rule, f"{q}#written-value", ok, cx.loc(w),
-                "the value written is the value passed in, or (expression case) its evaluation at assignment time", facts)
-    # no handler in set_value
-    tries = [n for n in A.walk(cx.fn) if isinstance(n, ast.Try)]
-    col.add(rule, f"{q}#no-exception-handler", not tries, cx.loc(tries[0]) if tries else cx.loc(cx.fn),
+    allowed = (value, S.mcall(value, "_get_value"))
+    for ev, m in W:
+        if "v" not in m:
+            continue    # ExprTask(ref, value).run(): writes the evaluated expression by C01.R5
+        vals = S.alts(m["v"])
+        ok = all(v in allowed for v in vals)
+        # a plain value must not be written on the expression path and vice versa
+        for b in rb:
+            if not cfg.path_avoiding(b, ev.nid, []):
+                continue
+        col.add(rule, f"{q}#written-value", ok, s.loc(ev),
+                "the value written is the value passed in, or (expression case) its evaluation at assignment time",
+                f"written: {S.show(m['v'])}")
+    tries = [n for n in A.walk(s.fn) if isinstance(n, ast.Try)]
+    col.add(rule, f"{q}#no-exception-handler", not tries, s.cx.module.loc(tries[0]) if tries else here,
             "set_value has no exception handler (a failure of a write or a task reaches the caller)", "")
-    # ref param not rebound
-    reb = [d for nid in cfg.nodes for d in cx.rd.defs.get(nid, []) if d.name in (ref_p,) and d.kind != "param"]
-    col.add(rule, f"{q}#ref-not-rebound", not reb, cx.loc(reb[0].nid) if reb else cx.loc(cx.fn),
-            "the assigned reference is not rebound inside set_value", str(reb))
+
+
+def _start_param_ok(col, rule, s: SCtx, q: str, start_term, what: str, at):
+    """the start collection is the parameter, or `self.rdeps` as the default only when the parameter is None"""
+    p = s.P(0)
+    ok = all(a == p or a == S.sattr("rdeps") or a == S.sattr("rtasks") for a in S.alts(start_term))
+    col.add(rule, f"{q}#{what}", ok, at, "the start collection is the caller's argument (or the 'everything' default)",
+            f"start collection: {S.show(start_term)}")
+    # rebinding of the parameter only under `is None`
+    pname = p[2]
+    for nid in list(s.cfg.nodes):
+        for d in s.cx.rd.defs.get(nid, []):
+            if d.name == pname and d.kind == "assign":
+                okn = s.under(nid, ("cmp", "is", p, ("const", "None")))
+                col.add(rule, f"{q}#default-only-when-None", okn, s.loc(nid),
+                        f"`{pname}` is replaced by its 'everything' default only when it is None "
+                        "(an empty start collection means: nothing to run)",
+                        f"conditions: {[S.show(c) for c in s.conds(nid)]}")
 
 
 def _trigger_closure(col: Collector, rule="C01.R2"):
     repo = col.repo
-    ft = fnctx(repo, "Manager", "find_taskids")
-    _check_find_taskids(col, rule, ft, depth=0)
-    # find_tasks: order preserving map through self.tasks
-    cx = fnctx(repo, "Manager", "find_tasks")
-    q = "Manager.find_tasks"
-    sp = A.params(cx.fn)[1] if len(A.params(cx.fn)) > 1 else None
-    rets = [n for n in cx.cfg.nodes.values() if n.kind == "stmt" and isinstance(n.ast, ast.Return)]
-    if not rets or sp is None:
-        raise AnalysisError("Manager.find_tasks: unrecognised shape")
-    for r in rets:
-        v = cx.resolve(r.ast.value, r.id)
-        ok = False
-        facts = A.src(v)
-        if isinstance(v, ast.ListComp) and len(v.generators) == 1 and not v.generators[0].ifs:
-            g = v.generators[0]
-            it = cx.resolve(g.iter, r.id)
-            tv = A.target_names(g.target)
-            elt_ok = isinstance(v.elt, ast.Subscript) and A.dotted(v.elt.value) == "self.tasks" and [A.dotted(v.elt.slice)] == tv
-            it_ok = isinstance(it, ast.Call) and is_self_call(it, "find_taskids") and len(it.args) + len(it.keywords) == 1 and \
-                A.dotted((it.args + [k.value for k in it.keywords])[0]) == sp
-            ok = elt_ok and it_ok
-        col.add(rule, f"{q}#order-preserving-map", ok, cx.loc(r.id),
-                "find_tasks maps find_taskids(start) through self.tasks with an order-preserving construct, dropping nothing", facts)
-    _none_default(col, rule, cx, sp, q)
-
-
-def _none_default(col, rule, cx, param, q):
-    """any rebinding of `param` (to 'everything') happens only under `param is None`"""
-    for nid in list(cx.cfg.nodes):
-        for d in cx.rd.defs.get(nid, []):
-            if d.name == param and d.kind == "assign":
-                ok = has_guard(cx.cfg, nid, "T", lambda t: test_is_none(t, param))
-                col.add(rule, f"{q}#default-only-when-None", ok, cx.loc(nid),
-                        f"`{param}` is replaced by its 'everything' default only when it is None "
-                        "(an empty start collection means: nothing to run)",
-                        f"guards: {[g.kind + ':' + A.src(g.ast)[:40] for g in cx.cfg.guards(nid)]}")
-    # truthiness tests of the parameter are suspicious in the same way
-    for n in cx.cfg.nodes.values():
-        if n.kind == "test":
-            t = n.ast
-            if isinstance(t, ast.UnaryOp) and isinstance(t.op, ast.Not):
-                t = t.operand
-            if isinstance(t, ast.Name) and t.id == param:
-                col.add(rule, f"{q}#default-only-when-None", False, cx.loc(n.id),
-                        f"`{param}` is tested with `is None`, not by truthiness", A.src(n.ast))
-
-
-def _check_find_taskids(col, rule, cx: FnCtx, depth: int):
-    q = f"Manager.{cx.fn.name}"
-    cfg = cx.cfg
-    P = A.params(cx.fn)
-    if len(P) < 2:
-        raise AnalysisError(f"{q}: unrecognised signature")
-    sp = P[1]
-    rets = [n for n in cfg.nodes.values() if n.kind == "stmt" and isinstance(n.ast, ast.Return)]
+    # ---- find_taskids
+    s = sctx(repo, "Manager", "find_taskids", public=True, keep=ANCHORS)
+    q = "Manager.find_taskids"
+    rets = s.of_kind("return")
     if not rets:
         raise AnalysisError(f"{q}: no return")
-    _none_default(col, rule, cx, sp, q)
     for r in rets:
-        v = cx.resolve(r.ast.value, r.id)
-        if isinstance(v, ast.Call) and is_self_call(v) and v.func.attr != cx.fn.name and depth < 2 \
-                and col.repo.has_method("Manager", v.func.attr) and v.func.attr.startswith("find_taskids"):
-            # delegation: the callee must satisfy the same obligations for its start parameter
-            callee = fnctx(col.repo, "Manager", v.func.attr)
-            col.add(rule, f"{q}#delegates", True, cx.loc(r.id), f"delegates to {v.func.attr}", A.src(v))
-            _check_toposort_call(col, rule, callee, f"Manager.{v.func.attr}", start_from_deptasks=False)
-            _none_default(col, rule, callee, A.params(callee.fn)[1], f"Manager.{v.func.attr}")
-            arg = v.args[0] if v.args else None
-            _check_start_set(col, rule, cx, q, arg, r.id, sp)
-            continue
-        if not (isinstance(v, ast.Call) and A.call_name(v) == "toposort"):
-            col.fail(rule, f"{q}#returns-toposort", cx.loc(r.id),
-                     "find_taskids returns toposort(self.rtasks, start tasks)", f"returns {A.src(v)}")
-            continue
-        ok_g = len(v.args) >= 2 and A.dotted(v.args[0]) == "self.rtasks"
-        col.add(rule, f"{q}#orders-by-rtasks", ok_g, cx.loc(r.id),
-                "the triggered tasks are ordered by the task-ordering graph self.rtasks, restricted to what is reachable from the start tasks",
-                A.src(v))
-        if len(v.args) >= 2:
-            _check_start_set(col, rule, cx, q, v.args[1], r.id, sp)
-
-
-def _check_toposort_call(col, rule, cx, q, start_from_deptasks):
-    rets = [n for n in cx.cfg.nodes.values() if n.kind == "stmt" and isinstance(n.ast, ast.Return)]
-    P = A.params(cx.fn)
+        v = r.value
+        m = S.match(v, S.fcall("toposort", S.V("g"), S.V("start")))
+        if m is None:
+            m2 = S.match(v, S.mcall(S.SELF, "find_taskids_from_tasks", S.V("start")))
+            if m2 is None:
+                col.fail(rule, f"{q}#returns-toposort", s.loc(r),
+                         "find_taskids returns toposort(self.rtasks, start tasks)", f"returns {S.show(v)}")
+                continue
+            s2 = sctx(repo, "Manager", "find_taskids_from_tasks", public=True, keep=ANCHORS)
+            for r2 in s2.of_kind("return"):
+                okd = S.match(r2.value, S.fcall("toposort", S.sattr("rtasks"), S.V("_", lambda t: all(
+                    a in (s2.P(0), S.sattr("rtasks")) for a in S.alts(t))))) is not None
+                col.add(rule, "Manager.find_taskids_from_tasks#orders-by-rtasks", okd, s2.loc(r2),
+                        "returns toposort(self.rtasks, <start tasks>)", S.show(r2.value))
+            m = {"g": S.sattr("rtasks"), "start": m2["start"]}
+        col.add(rule, f"{q}#orders-by-rtasks", m["g"] == S.sattr("rtasks"), s.loc(r),
+                "the triggered tasks are ordered by the task-ordering graph self.rtasks, restricted to what is reachable from "
+                "the start tasks", f"graph argument: {S.show(m['g'])}")
+        _check_start_set(col, rule, s, q, m["start"], s.loc(r))
+    # ---- find_tasks: order preserving map through self.tasks
+    s = sctx(repo, "Manager", "find_tasks", public=True, keep=ANCHORS)
+    q = "Manager.find_tasks"
+    rets = s.of_kind("return")
+    if not rets:
+        raise AnalysisError(f"{q}: no return")
     for r in rets:
-        v = cx.resolve(r.ast.value, r.id)
-        ok = isinstance(v, ast.Call) and A.call_name(v) == "toposort" and len(v.args) >= 2 and \
-            A.dotted(v.args[0]) == "self.rtasks" and A.dotted(v.args[1]) == P[1]
-        col.add(rule, f"{q}#orders-by-rtasks", ok, cx.loc(r.id),
-                "returns toposort(self.rtasks, <start parameter>)", A.src(v))
+        v = r.value
+        ok, facts = False, S.show(v)
+        m = S.match(v, ("acc", "list", (("one", S.V("g"), ("sub", S.sattr("tasks"), ("elem", S.V("ids")))),)))
+        if m is None:
+            m = S.match(v, S.fcall("list", ("acc", "gen", (("one", S.V("g"), ("sub", S.sattr("tasks"), ("elem", S.V("ids")))),))))
+        if m is not None:
+            mi = S.match(m["ids"], S.mcall(S.SELF, "find_taskids", S.V("start")))
+            if mi is not None and m["g"] == ():
+                ok = True
+                _start_param_ok(col, rule, s, q, mi["start"], "start-passed-through", s.loc(r))
+            elif m["g"] != ():
+                facts = f"filtered by {[S.show(c) for _, c in m['g']]}"
+        elif not any(v[:1] == (k,) for k in (("acc",), ("call",))):
+            raise AnalysisError(f"{q}: unrecognised return value {S.show(v)} -- cannot decide")
+        col.add(rule, f"{q}#order-preserving-map", ok, s.loc(r),
+                "find_tasks maps find_taskids(start) through self.tasks with an order-preserving construct, dropping nothing", facts)
 
 
-def _check_start_set(col, rule, cx, q, arg, at, sp):
-    """arg (a Name) accumulates self.deptasks[dep] for every dep of the start parameter"""
-    ok = False
-    facts = A.src(arg)
-    if isinstance(arg, ast.Name):
-        ds = cx.defs(arg.id, at)
-        init = [d for d in ds if d.kind == "assign"]
-        acc = [d for d in ds if d.kind == "mutcall"]
-        init_ok = len(init) == 1 and ((isinstance(init[0].value, ast.Call) and A.call_name(init[0].value) in ("set", "list", "dict")
-                                       and not init[0].value.args) or (isinstance(init[0].value, (ast.List, ast.Dict)) and not A.src(init[0].value).strip("[]{}")))
-        acc_ok = False
-        for d in acc:
-            c = d.value
-            if c.func.attr in ("update", "extend") and len(c.args) == 1 and isinstance(c.args[0], ast.Subscript) \
-                    and A.dotted(c.args[0].value) == "self.deptasks":
-                key = A.dotted(c.args[0].slice)
-                loops = [g for g in cx.cfg.guards(d.nid) if g.kind == "T" and isinstance(g.ast, ast.For)]
-                conds = [g for g in cx.cfg.guards(d.nid) if not isinstance(g.ast, ast.For)]
-                if len(loops) == 1 and A.target_names(loops[0].ast.target) == [key] and A.dotted(loops[0].ast.iter) == sp and not conds:
-                    acc_ok = True
-        others = [d for d in ds if d.kind not in ("assign", "mutcall")]
-        ok = init_ok and acc_ok and not others and len(acc) == 1
-        facts = f"definitions of `{arg.id}`: {ds}"
-    col.add(rule, f"{q}#start-set-from-deptasks", ok, cx.loc(at),
+def _check_start_set(col, rule, s: SCtx, q, start, at):
+    """start = union of self.deptasks[dep] over every dep of the start parameter, unfiltered"""
+    ok, facts = False, S.show(start)
+    if start[:1] == ("acc",) and start[1] in ("set", "list", "dict"):
+        ok = bool(start[2])
+        for c in start[2]:
+            kind, g = c[0], c[1]
+            if kind == "many":
+                m = S.match(c[2], ("sub", S.sattr("deptasks"), ("elem", S.V("deps"))))
+            elif kind == "one":
+                m = S.match(c[2], ("elem", ("sub", S.sattr("deptasks"), ("elem", S.V("deps")))))
+            else:
+                m = None
+            if m is None:
+                ok, facts = False, f"contribution {S.show(('acc', start[1], (c,)))}"
+                continue
+            if g:
+                ok, facts = False, f"start tasks filtered by {[('' if p else 'not ') + S.show(t) for p, t in g]}"
+                continue
+            _start_param_ok(col, rule, s, q, m["deps"], "start-deps-are-the-argument", at)
+    elif start[:1] in (("param",), ("attr",), ("alt",)):
+        ok, facts = False, f"start set is {S.show(start)}, not derived from self.deptasks"
+    else:
+        raise AnalysisError(f"{q}: unrecognised construction of the start set: {S.show(start)} -- cannot decide")
+    col.add(rule, f"{q}#start-set-from-deptasks", ok, at,
             "the start set is the union of self.deptasks[dep] over every dep of the argument (unfiltered)", facts)
 
 
@@ -301,7 +264,6 @@ def _recursion(col: Collector, rule="C01.R4"):
     """no recursion over the manager's graph on the scheduling path"""
     repo = col.repo
     m = repo.module("sorting")
-    # call graph among module-level functions of sorting.py
     import networkx as nx
     g = nx.DiGraph()
     for name, fn in m.functions.items():
@@ -325,153 +287,120 @@ def _recursion(col: Collector, rule="C01.R4"):
                 "scheduling entry points are not recursive", "")
 
 
+def _self_stores(s: SCtx):
+    """{attr: [store events]} for `self.attr = ...`"""
+    out = {}
+    for ev in s.of_kind("store"):
+        for t in S.alts(ev.target):
+            if S.is_attr(t, S.SELF):
+                out.setdefault(t[2], []).append(ev)
+    return out
+
+
 def _task_bodies(col: Collector, rule="C01.R5"):
     repo = col.repo
-    # ExprTask.__init__
-    cx = fnctx(repo, "ExprTask", "__init__")
-    P = A.params(cx.fn)
-    if len(P) != 3:
+    # ---- ExprTask.__init__
+    s = sctx(repo, "ExprTask", "__init__")
+    if len([p for p in s.sym.params.values() if p[:1] == ("param",)]) != 2:
         raise AnalysisError("ExprTask.__init__: expected (self, target, expr)")
-    _, tar_p, expr_p = P
-    stores = {}
-    for n in cx.cfg.nodes.values():
-        if n.kind == "stmt" and isinstance(n.ast, ast.Assign) and len(n.ast.targets) == 1:
-            a = A.self_attr(n.ast.targets[0])
-            if a:
-                stores.setdefault(a, []).append(n)
+    tar, expr = s.P(0), s.P(1)
+    st = _self_stores(s)
+
     def single(attr):
-        return stores[attr][0].ast.value if len(stores.get(attr, [])) == 1 else None
-    col.add(rule, "ExprTask.__init__#expr", A.dotted(single("expr")) == expr_p, cx.loc(cx.fn),
-            "the task keeps the expression it was given", A.src(single("expr")))
-    col.add(rule, "ExprTask.__init__#taskid", A.dotted(single("taskid")) == tar_p, cx.loc(cx.fn),
-            "the task is identified by its target", A.src(single("taskid")))
-    d = single("dependencies")
-    okd = isinstance(d, ast.Call) and is_method_call(d, "_get_dependencies") and A.dotted(d.func.value) == expr_p and not d.args
-    col.add(rule, "ExprTask.__init__#dependencies", okd, cx.loc(cx.fn),
-            "the task's dependencies are exactly expr._get_dependencies()", A.src(d))
-    # ExprTask.run
-    cx = fnctx(repo, "ExprTask", "run")
-    cfg = cx.cfg
-    W = cx.call_nodes(lambda c: is_method_call(c, "_set_value", "self.taskid"))
-    EVc = cx.call_nodes(lambda c: is_method_call(c, "_get_value", "self.expr"))
-    ok = len(W) == 1 and bool(EVc) and cfg.must_pass(cfg.ENTRY, cfg.EXIT, W)
-    facts = ""
-    if ok:
-        c = cx.calls_at(W[0], lambda c: is_method_call(c, "_set_value", "self.taskid"))[0]
-        v = cx.resolve(c.args[0], W[0]) if len(c.args) == 1 else None
-        ok = isinstance(v, ast.Call) and is_method_call(v, "_get_value", "self.expr") and not v.args
-        facts = f"writes {A.src(c.args[0]) if c.args else '?'} = {A.src(v)}"
-        ok = ok and all(cfg.dominates(e, W[0]) or e == W[0] for e in EVc)
-    col.add(rule, "ExprTask.run#evaluate-then-write", ok, cx.loc(W[0]) if W else cx.loc(cx.fn),
-            "every run evaluates self.expr afresh and writes exactly that value to self.taskid", facts)
-    sw = [a for a, _ in __import__("xsa.rules.common", fromlist=["x"]).self_attr_stores(cx.fn)]
-    tries = [n for n in A.walk(cx.fn) if isinstance(n, ast.Try)]
-    col.add(rule, "ExprTask.run#stateless", not sw and not tries, cx.loc(cx.fn),
-            "ExprTask.run keeps no state between runs (no cached value, no handler)", f"self attributes stored: {sw}")
-    # FunctionTask.run
-    cx = fnctx(repo, "FunctionTask", "run")
-    An = cx.call_nodes(lambda c: is_self_call(c, "action"))
-    col.add(rule, "FunctionTask.run#calls-action", bool(An) and cx.cfg.must_pass(cx.cfg.ENTRY, cx.cfg.EXIT, An), cx.loc(cx.fn),
+        evs = st.get(attr, [])
+        return evs[0].value if len(evs) == 1 else None
+    here = s.loc(s.fn)
+    col.add(rule, "ExprTask.__init__#expr", single("expr") == expr, here, "the task keeps the expression it was given", S.show(single("expr")))
+    col.add(rule, "ExprTask.__init__#taskid", single("taskid") == tar, here, "the task is identified by its target", S.show(single("taskid")))
+    col.add(rule, "ExprTask.__init__#dependencies", single("dependencies") == S.mcall(expr, "_get_dependencies"), here,
+            "the task's dependencies are exactly expr._get_dependencies()", S.show(single("dependencies")))
+    # ---- ExprTask.run
+    s = sctx(repo, "ExprTask", "run")
+    cfg = s.cfg
+    W = s.calls_some(S.mcall(S.sattr("taskid"), "_set_value", S.V("v")))
+    if not W:
+        raise AnalysisError("ExprTask.run: no self.taskid._set_value(...) -- cannot decide")
+    Wn = s.nids(W)
+    col.add(rule, "ExprTask.run#writes-on-every-run", cfg.must_pass(cfg.ENTRY, cfg.EXIT, Wn), s.loc(Wn[0]),
+            "every run writes the target (no skipped write, no memo of the previous value)", f"write sites {[s.loc(w) for w in Wn]}")
+    for ev, m in W:
+        ok = m["v"] == S.mcall(S.sattr("expr"), "_get_value")
+        col.add(rule, "ExprTask.run#evaluate-then-write", ok, s.loc(ev),
+                "every run evaluates self.expr afresh and writes exactly that value to self.taskid", f"writes {S.show(m['v'])}")
+    tries = [n for n in A.walk(s.fn) if isinstance(n, ast.Try)]
+    col.add(rule, "ExprTask.run#no-handler", not tries, s.loc(s.fn), "ExprTask.run has no exception handler", "")
+    # ---- FunctionTask.run
+    s = sctx(repo, "FunctionTask", "run")
+    An = s.nids(s.calls_some(S.mcall(S.SELF, "action")))
+    col.add(rule, "FunctionTask.run#calls-action", bool(An) and s.cfg.must_pass(s.cfg.ENTRY, s.cfg.EXIT, An), s.loc(s.fn),
             "every run of a function task calls its action", "")
-    # LinearKnob.run
-    cx = fnctx(repo, "LinearKnob", "run")
-    cfg = cx.cfg
-    reads = cx.call_nodes(lambda c: is_method_call(c, "_get_value", "self.source"))
-    writes = cx.call_nodes(lambda c: is_method_call(c, "_set_value"))
-    ok = bool(reads) and len(writes) == 1
-    facts = ""
-    if ok:
-        w = writes[0]
-        loops = [g for g in cfg.guards(w) if g.kind == "T" and isinstance(g.ast, ast.For)]
-        c = cx.calls_at(w, lambda c: is_method_call(c, "_set_value"))[0]
-        tv = A.dotted(c.func.value)
-        lok = len(loops) == 1 and isinstance(loops[0].ast.iter, ast.Call) and A.call_name(loops[0].ast.iter) == "zip" and \
-            [A.dotted(a) for a in loops[0].ast.iter.args] == ["self.weights", "self.targets"] and \
-            len(A.target_names(loops[0].ast.target)) == 2 and A.target_names(loops[0].ast.target)[1] == tv
-        wv = A.target_names(loops[0].ast.target)[0] if lok else None
-        # written value: t._get_value() + w * delta
-        v = c.args[0] if c.args else None
-        vok = False
-        if lok and isinstance(v, ast.BinOp) and isinstance(v.op, ast.Add):
-            sides = [v.left, v.right]
-            cur = [s for s in sides if isinstance(s, ast.Call) and is_method_call(s, "_get_value", tv)]
-            inc = [s for s in sides if isinstance(s, ast.BinOp) and isinstance(s.op, ast.Mult)
-                   and {A.dotted(s.left), A.dotted(s.right)} >= {wv}]
-            if len(cur) == 1 and len(inc) == 1:
-                dn = [x for x in (A.dotted(inc[0].left), A.dotted(inc[0].right)) if x != wv]
-                if dn and dn[0]:
-                    dv = cx.resolve(ast.Name(id=dn[0], ctx=ast.Load()), w)
-                    # delta = value - self.prev_value
-                    if isinstance(dv, ast.BinOp) and isinstance(dv.op, ast.Sub) and A.dotted(dv.right) == "self.prev_value":
-                        cv = cx.resolve(dv.left, w)
-                        vok = isinstance(cv, ast.Call) and is_method_call(cv, "_get_value", "self.source")
-        ok = lok and vok
-        facts = f"loop: {A.src(loops[0].ast.iter) if loops else None}; written: {A.src(v)}"
-    col.add(rule, "LinearKnob.run#increment", ok, cx.loc(writes[0]) if writes else cx.loc(cx.fn),
-            "each target is incremented by weight * (source value - previous source value)", facts)
-    commits = [n for n in cfg.nodes.values() if n.kind == "stmt" and isinstance(n.ast, ast.Assign)
-               and A.self_attr(n.ast.targets[0]) == "prev_value"]
-    okc = len(commits) == 1 and cfg.must_pass(cfg.ENTRY, cfg.EXIT, [commits[0].id])
-    if okc:
-        cv = cx.resolve(commits[0].ast.value, commits[0].id)
-        okc = isinstance(cv, ast.Call) and is_method_call(cv, "_get_value", "self.source")
-    col.add(rule, "LinearKnob.run#commit-prev-value", okc, cx.loc(commits[0].id) if commits else cx.loc(cx.fn),
-            "the source value the increments were computed from is committed as prev_value on every run", "")
-    # LinearKnob.__init__
-    cx = fnctx(repo, "LinearKnob", "__init__")
-    st = {a: n for a, n in __import__("xsa.rules.common", fromlist=["x"]).self_attr_stores(cx.fn)}
-    src_p = A.params(cx.fn)[2] if len(A.params(cx.fn)) > 2 else None
-    dep = st.get("dependencies")
-    okk = dep is not None and isinstance(dep.value, ast.Set) and [A.dotted(e) for e in dep.value.elts] == [src_p]
-    col.add(rule, "LinearKnob.__init__#dependencies", okk, cx.loc(cx.fn),
-            "a linear knob depends on its source", A.src(dep.value) if dep is not None else "")
+    # ---- LinearKnob.run
+    s = sctx(repo, "LinearKnob", "run")
+    cfg = s.cfg
+    tgt = ("elem", S.sattr("targets"))
+    wgt = ("elem", S.sattr("weights"))
+    W = s.calls_some(S.mcall(S.V("t"), "_set_value", S.V("v")))
+    if not W:
+        raise AnalysisError("LinearKnob.run: no _set_value call -- cannot decide")
+    src_now = S.mcall(S.sattr("source"), "_get_value")
+    want = ("op", "+", S.mcall(tgt, "_get_value"), ("op", "*", wgt, ("op", "-", src_now, S.sattr("prev_value"))))
+    for ev, m in W:
+        ok = m["t"] == tgt and S.match(m["v"], want) is not None
+        col.add(rule, "LinearKnob.run#increment", ok, s.loc(ev),
+                "each target is incremented by weight * (source value - previous source value), weights and targets paired",
+                f"{S.show(m['t'])} <- {S.show(m['v'])}")
+    commits = _self_stores(s).get("prev_value", [])
+    okc = bool(commits) and cfg.must_pass(cfg.ENTRY, cfg.EXIT, s.nids(commits)) and all(c.value == src_now for c in commits)
+    col.add(rule, "LinearKnob.run#commit-prev-value", okc, s.loc(commits[0]) if commits else s.loc(s.fn),
+            "the source value the increments were computed from is committed as prev_value on every run",
+            f"commits: {[S.show(c.value) for c in commits]}")
+    # ---- LinearKnob.__init__
+    s = sctx(repo, "LinearKnob", "__init__")
+    st = _self_stores(s)
+    dep = st.get("dependencies", [])
+    srcs = [e.value for e in st.get("source", [])]
+    okk = len(dep) == 1 and len(srcs) == 1 and dep[0].value in (("set", (srcs[0],)),)
+    col.add(rule, "LinearKnob.__init__#dependencies", okk, s.loc(s.fn), "a linear knob depends on its source",
+            S.show(dep[0].value) if dep else "")
 
 
 def _effect_precision(col: Collector, rule="C01.R6"):
-    repo = col.repo
-    cx = fnctx(repo, "ExprTask", "__init__")
-    tar_p = A.params(cx.fn)[1]
-    tv = None
-    for a, n in __import__("xsa.rules.common", fromlist=["x"]).self_attr_stores(cx.fn):
-        if a == "targets" and isinstance(n, ast.Assign):
-            tv = n.value
-    if tv is None:
-        raise AnalysisError("ExprTask.__init__: no assignment of self.targets")
-    exact = isinstance(tv, ast.Set) and [A.dotted(e) for e in tv.elts] == [tar_p]
-    owner_chain = isinstance(tv, ast.Call) and is_method_call(tv, "_get_dependencies") and A.dotted(tv.func.value) == tar_p
+    s = sctx(col.repo, "ExprTask", "__init__")
+    tar = s.P(0)
+    evs = _self_stores(s).get("targets", [])
+    if len(evs) != 1:
+        raise AnalysisError("ExprTask.__init__: no single assignment of self.targets")
+    tv = evs[0].value
+    exact = tv == ("set", (tar,))
+    owner_chain = tv == S.mcall(tar, "_get_dependencies")
     if not exact and not owner_chain:
-        col.fail("C01.R5", "ExprTask.__init__#targets", cx.loc(cx.fn),
-                 "the declared targets of an expression task contain the written location", A.src(tv))
+        col.fail("C01.R5", "ExprTask.__init__#targets", s.loc(evs[0]),
+                 "the declared targets of an expression task contain the written location", S.show(tv))
         return
-    col.add(rule, "ExprTask.__init__#targets-equal-writes", exact, cx.loc(cx.fn),
+    col.add(rule, "ExprTask.__init__#targets-equal-writes", exact, s.loc(evs[0]),
             "the declared write set of an ExprTask equals what run() writes (self.taskid only); declaring the owner chain "
             "orders sibling members of one container both ways (cycle in rtasks)",
-            f"self.targets = {A.src(tv)} (owner chain included via MutableRef._get_dependencies)")
+            f"self.targets = {S.show(tv)} (owner chain included via MutableRef._get_dependencies)")
 
 
 def _entry_points(col: Collector, rule="C01.R7"):
     repo = col.repo
+    mgr = S.sattr("_manager")
     for cls, meth, refcls in (("MutableRef", "__setitem__", "ItemRef"), ("MutableRef", "__setattr__", "AttrRef"),
                               ("ObjectAttrRef", "__setattr__", "ItemRef")):
-        cx = fnctx(repo, cls, meth)
-        P = A.params(cx.fn)
-        key_p, val_p = P[1], P[2]
-        sv = cx.call_nodes(lambda c: is_method_call(c, "set_value", "self._manager"))
-        ok = len(sv) == 1
-        facts = ""
-        if ok:
-            c = cx.calls_at(sv[0], lambda c: is_method_call(c, "set_value", "self._manager"))[0]
-            r = cx.resolve(c.args[0], sv[0]) if len(c.args) == 2 else None
-            ok = isinstance(r, ast.Call) and A.call_name(r) == refcls and len(r.args) == 3 and \
-                [A.dotted(a) for a in r.args] == ["self", key_p, "self._manager"] and A.dotted(c.args[1]) == val_p \
-                and all(d.kind == "param" for d in cx.defs(val_p, sv[0]))
-            facts = A.src(c) + " with ref = " + A.src(r)
-        col.add(rule, f"{cls}.{meth}#assign-through-manager", ok, cx.loc(sv[0]) if sv else cx.loc(cx.fn),
-                f"{cls}.{meth} assigns through manager.set_value({refcls}(self, key, manager), value)", facts)
-    cx = fnctx(repo, "BaseRef", "_set_to_expr")
-    sv = cx.call_nodes(lambda c: is_method_call(c, "set_value", "self._manager"))
-    ok = len(sv) == 1 and [A.dotted(a) for a in cx.calls_at(sv[0])[0].args] == ["self", A.params(cx.fn)[1]]
-    col.add(rule, "BaseRef._set_to_expr#assign-through-manager", ok, cx.loc(cx.fn),
+        s = sctx(repo, cls, meth)
+        key, val = s.P(0), s.P(1)
+        sv = s.calls_some(S.mcall(mgr, "set_value", S.V("r"), S.V("v")))
+        if not sv:
+            raise AnalysisError(f"{cls}.{meth}: no self._manager.set_value(...) -- cannot decide")
+        for ev, m in sv:
+            ok = S.match(m["r"], S.fcall(refcls, S.SELF, key, mgr)) is not None and m["v"] == val
+            col.add(rule, f"{cls}.{meth}#assign-through-manager", ok, s.loc(ev),
+                    f"{cls}.{meth} assigns through manager.set_value({refcls}(self, key, manager), value)", S.show(ev.term))
+    s = sctx(repo, "BaseRef", "_set_to_expr")
+    sv = s.calls_some(S.mcall(mgr, "set_value", S.V("r"), S.V("v")))
+    ok = bool(sv) and all(m["r"] == S.SELF and m["v"] == s.P(0) for _, m in sv)
+    col.add(rule, "BaseRef._set_to_expr#assign-through-manager", ok, s.loc(s.fn),
             "_set_to_expr assigns through manager.set_value(self, expr)", "")
 
 
